@@ -55,7 +55,7 @@ def raw_values(col, n):
         pool = col["pool"]
     out = []
     for i in range(n):
-        if mask[i]:
+        if mask[i] or not pool:          # (a categorical without any category holds missing cells only)
             out.append(MISSING)
             continue
         v = pool[idx[i % len(idx)] % len(pool)]
@@ -115,7 +115,7 @@ def build_array(col, n):
         cats = col["cats"]
         idx = col["idx"] or [0]
         mask = null_mask(col.get("null"), n)
-        codes = [-1 if mask[i] else idx[i % len(idx)] % len(cats) for i in range(n)]
+        codes = [-1 if (mask[i] or not cats) else idx[i % len(idx)] % len(cats) for i in range(n)]
         if col["labels"] == "float":
             cindex = pd.Index(np.array(cats, dtype="float64"))
         elif col["labels"] == "int":
